@@ -580,6 +580,15 @@ inductive CopyRes where
   | nosel
 deriving DecidableEq, Repr
 
+/-- the COPYUID item of `Mailbox.Copy` / `Mailbox.Move`: source and destination UIDs pair up by
+    position, so it is sent only when every selected message got a destination UID.  Out of the
+    recovery mailbox a message the destination already holds (de-duplicated by the remote) is not
+    added again: fewer destination UIDs than selected messages, and the answer is a plain OK
+    (`([], [])`).  (`Mailbox.Move` first pairs by internal ID; out of the recovery mailbox the
+    destination holds other internal IDs, nothing pairs; elsewhere the model always has as many.) -/
+def copyUidItem (sel : List (Nat × Nat)) (duids : List Nat) : List Nat × List Nat :=
+  if duids.length == sel.length then (sel.map (·.1), duids) else ([], [])
+
 /-- `Mailbox.Copy` (the session has `src` selected) -/
 def copy (s : St) (src : String) (uids : List Nat) (dst : String) : CopyRes × St :=
   match getBox s.db src with
@@ -595,15 +604,7 @@ def copy (s : St) (src : String) (uids : List Nat) (dst : String) : CopyRes × S
         let r := withTx s (fun s => if src == recName then copyOutOfRecovery s ids dst else actionAdd s dst ids)
         match r with
         | (.error e, s) => (.no e, s)
-        | (.ok duids, s) => (.ok (sel.map (·.1)) duids, s)
-
-/-- the source UIDs `Mailbox.Move` reports in COPYUID: all selected ones, unless fewer destination
-    UIDs came back than messages were selected — then only those whose internal ID is among the
-    destination's.  Out of the recovery mailbox the destination holds *other* internal IDs (the
-    imported / de-duplicated messages), so in that case no source UID is left: the server answers
-    `[COPYUID v  <dst>]` with an empty source set (what the code does; `Mailbox.Copy` has no such filter). -/
-def moveSrcUids (src : String) (sel : List (Nat × Nat)) (duids : List Nat) : List Nat :=
-  if src == recName && duids.length != sel.length then [] else sel.map (·.1)
+        | (.ok duids, s) => (.ok (copyUidItem sel duids).1 (copyUidItem sel duids).2, s)
 
 /-- `Mailbox.Move` -/
 def move (s : St) (src : String) (uids : List Nat) (dst : String) : CopyRes × St :=
@@ -620,7 +621,7 @@ def move (s : St) (src : String) (uids : List Nat) (dst : String) : CopyRes × S
         let r := withTx s (fun s => if src == recName then moveOutOfRecovery s ids dst else actionMove s src dst ids)
         match r with
         | (.error e, s) => (.no e, s)
-        | (.ok duids, s) => (.ok (moveSrcUids src sel duids) duids, s)
+        | (.ok duids, s) => (.ok (copyUidItem sel duids).1 (copyUidItem sel duids).2, s)
 
 /-- STORE +FLAGS (\Deleted) on `uids`, then `Mailbox.Expunge` of them -/
 def expunge (s : St) (src : String) (uids : List Nat) : Option Err × St :=
